@@ -28,6 +28,7 @@ RULE = (
 )
 # this check looks at the registered classes themselves: classes derived by a program would take their place
 USER_SUBCLASSES = False
+RULE += " Rounds 12-14 of DESIGN section 9 added: stock metadata after deriving classes (plain, own controller, controller-bearing mix-in before / after the stock class) and after refused constructions / assignments; the fingerprint includes the options' exclusivity lists and bounds."
 ASSUMPTIONS = [
     "PyYAML parses specs/fileformat.yaml faithfully",
     "vlib.specmodel's reading of the YAML keys (min/max/enum/bool/depends_on/compact/no_offset, option keys) is the intended one",
